@@ -231,3 +231,62 @@ from contracts.c12 import UNITS as _C12_UNITS  # noqa: E402
 UNITS += [_dc.replace(u, prop="C07") for u in _C12_UNITS if u.target.endswith(("_add_signature_arguments", "_add_signature_parameter"))]
 from contracts.c04 import UNITS as _C04_UNITS  # noqa: E402
 UNITS += [_dc.replace(u, prop="C07") for u in _C04_UNITS if "_ActionConfigLoad." in u.target]
+
+
+# ------------------------------------------------------------------------------------------------ _create_group_if_requested
+def cg_setup(ctx):
+    nested = [None, "grp", "my-grp"][ctx.choose(3, "nested_key")]
+    as_group = ctx.choose(2, "as_group") == 1
+    config_load = ctx.choose(2, "config_load") == 1
+    required = ctx.choose(2, "required") == 1
+    is_class = ctx.choose(2, "component-is-a-class") == 1
+    instantiate = ctx.choose(2, "instantiate") == 1
+    doc = [None, "Title of the group."][ctx.choose(2, "doc_group")]
+    obj = Rec("component", attrs={"__name__": "Comp"})
+    required_args = set()
+    group = Rec("ArgumentGroup", attrs={})
+    added = []
+    group.methods["add_argument"] = lambda c, s_, a, k: added.append((a, dict(k)))
+    made = []
+    self = Rec("SignatureArguments", attrs={"required_args": required_args}, methods={"add_argument_group": lambda c, s_, a, k: (made.append((a, dict(k))), group)[1]})
+    basetype = Rec("config_load_type")
+    calls = {"strip_title": lambda c, a, k: ("stripped", a[0]), "str": lambda c, a, k: "str(component)", "inspect.isclass": lambda c, a, k: is_class and a[0] is obj,
+             "_ActionConfigLoad": lambda c, a, k: Rec("_ActionConfigLoad", attrs={"basetype": k.get("basetype")})}
+    fn = Rec("group_instantiate_class")
+    return Setup(env={"self": self, "obj": obj, "nested_key": nested, "as_group": as_group, "doc_group": doc, "config_load": config_load, "config_load_type": basetype, "required": required, "instantiate": instantiate},
+                 calls=calls, consts={"group_instantiate_class": fn},
+                 data=dict(nested=nested, as_group=as_group, config_load=config_load, required=required, is_class=is_class, instantiate=instantiate, doc=doc, group=group, added=added, made=made,
+                           required_args=required_args, self_=self, basetype=basetype, fn=fn, obj=obj))
+
+
+def cg_post(ctx, st, result):
+    d = st.data
+    tag = f"[nested={d['nested']!r}{',group' if d['as_group'] else ''}{',config_load' if d['config_load'] else ''}{',required' if d['required'] else ''}{',class' if d['is_class'] else ''}{',instantiate' if d['instantiate'] else ''}]"
+    ctx.oblige("post", "a-required-group-needs-a-key" + tag, not (d["required"] and d["nested"] is None))
+    ctx.oblige("post", "a-required-group-is-recorded-under-its-key" + tag, d["required_args"] == ({d["nested"]} if d["required"] else set()))
+    if not d["as_group"]:
+        ctx.oblige("post", "no-group-asked=>the-arguments-go-to-the-container-itself" + tag, result is d["self_"] and not d["made"] and not d["added"])
+        return
+    name = "Comp" if d["nested"] is None else d["nested"]
+    ctx.oblige("post", "one-group,named-by-the-key(or the component's name)" + tag, result is d["group"] and len(d["made"]) == 1 and d["made"][0][1].get("name") == name
+               and d["made"][0][0] == (("stripped", d["doc"] if d["doc"] is not None else "str(component)"),))
+    if d["config_load"] and d["nested"] is not None:
+        ok = len(d["added"]) == 1 and d["added"][0][0] == ("--" + d["nested"],) and isinstance(d["added"][0][1].get("action"), Rec) and d["added"][0][1]["action"].attrs["basetype"] is d["basetype"]
+        ctx.oblige("post", "the-whole-group-option---<key>-is-declared-in-the-group(the same key the members are nested under)" + tag, ok)
+    else:
+        ctx.oblige("post", "no-whole-group-option-without-a-key-or-when-not-asked" + tag, not d["added"])
+    g = d["group"].attrs
+    if d["is_class"] and d["nested"] is not None and d["instantiate"]:
+        ctx.oblige("post", "a-class-under-a-key-is-marked-for-instantiation:dest=key(dashes as underscores),the-class,the-instantiator" + tag,
+                   g.get("dest") == d["nested"].replace("-", "_") and g.get("group_class") is d["obj"] and g.get("instantiate_class") is d["fn"])
+    else:
+        ctx.oblige("post", "otherwise-the-group-is-not-instantiable" + tag, "instantiate_class" not in g and "group_class" not in g)
+
+
+def cg_raises(ctx, st, exc):
+    d = st.data
+    ctx.oblige("raises", f"ValueError-exactly-for-a-required-group-without-a-key(got {exc.cls})", exc.cls == "ValueError" and d["required"] and d["nested"] is None and not d["made"])
+
+
+UNITS.append(Unit("C07", "jsonargparse._signatures:SignatureArguments._create_group_if_requested", cg_setup, cg_post, cg_raises, max_paths=5000, expect_cover=("return", "raise:ValueError"),
+                  trusted=["add_argument_group / group.add_argument by contract (add_argument: its own unit)"]))
